@@ -59,6 +59,15 @@ type Case struct {
 	Frame    []byte   `json:"frame,omitempty"` // decode / e2e-frame: bytes offered to the decoder
 	Mutation string   `json:"mutation,omitempty"`
 	Rich     bool     `json:"rich,omitempty"` // payload has a populated non-scalar field
+	// e2e-status: the handler outcomes of consecutive calls to one node through one manager
+	// (code 0 = the handler succeeds); empty = the single outcome (Code, Text)
+	Seq []StatusStep `json:"seq,omitempty"`
+}
+
+// StatusStep is one handler outcome of an e2e-status case.
+type StatusStep struct {
+	Code int32  `json:"code"`
+	Text string `json:"text,omitempty"`
 }
 
 var (
@@ -420,8 +429,17 @@ func gen(t *rapid.T) Case {
 			c.Response = false
 		}
 	case "e2e-status":
-		c.Code = rapid.Int32Range(1, 16).Draw(t, "code")
-		c.Text = rapid.OneOf(rapid.StringN(0, 40, 200), rapid.SampledFrom([]string{"", "boom", "line1\nline2", "ünïcödé ☃"})).Draw(t, "text")
+		n := rapid.SampledFrom([]int{1, 2, 3, 3, 4, 6}).Draw(t, "steps")
+		for i := 0; i < n; i++ {
+			st := StatusStep{Code: rapid.Int32Range(1, 16).Draw(t, fmt.Sprintf("code%d", i))}
+			if i > 0 && rapid.IntRange(0, 2).Draw(t, fmt.Sprintf("ok%d", i)) == 0 {
+				st.Code = 0 // a success after failures (and between them)
+			}
+			if st.Code != 0 {
+				st.Text = rapid.OneOf(rapid.StringN(0, 40, 200), rapid.SampledFrom([]string{"", "", "boom", "line1\nline2", "ünïcödé ☃"})).Draw(t, fmt.Sprintf("text%d", i))
+			}
+			c.Seq = append(c.Seq, st)
+		}
 	}
 	return c
 }
@@ -628,8 +646,14 @@ func runE2EFrame(c Case) vt.Verdict {
 	return vt.Pass(c.Mutation != "noise" && c.Mutation != "valid", "mode=e2e-frame", "mutation="+c.Mutation)
 }
 
-// runE2EStatus: a handler's error status reaches the caller with the same code and message.
+// runE2EStatus: a handler's error status reaches the caller with the same code and
+// message - for every call of a sequence of calls to one node through one manager
+// (a success after a failure arrives as a success, an empty message stays empty).
 func runE2EStatus(c Case) vt.Verdict {
+	seq := c.Seq
+	if len(seq) == 0 {
+		seq = []StatusStep{{Code: c.Code, Text: c.Text}}
+	}
 	cl := scen.NewCluster(1, 0)
 	defer cl.Shutdown()
 	cl.Start(0)
@@ -638,25 +662,47 @@ func runE2EStatus(c Case) vt.Verdict {
 		return vt.Verdict{OK: true, Inconclusive: true, Msg: err.Error()}
 	}
 	defer client.Close(scen.B)
-	tok := scen.NewTokens(1)
-	cl.SetBehaviour(0, tok, scen.Behaviour{ErrCode: int(c.Code), ErrMsg: c.Text})
-	call := client.NewCall(0, tok, 1, scen.CallSpec{Kind: "RPC", Node: 0, Ctx: "cancel"})
-	go call.Issue()
-	if r, _ := scen.Await(call.DoneCh(), scen.B); r != scen.Done {
-		call.Cancel()
-		return vt.Verdict{OK: true, Inconclusive: true, Msg: "RPC did not return in time"}
+	tok0 := scen.NewTokens(len(seq))
+	mixed := false
+	for i, stp := range seq {
+		tok := tok0 + uint64(i)
+		where := fmt.Sprintf("call %d of %d", i+1, len(seq))
+		cl.SetBehaviour(0, tok, scen.Behaviour{ErrCode: int(stp.Code), ErrMsg: stp.Text})
+		call := client.NewCall(i, tok, uint64(i+1), scen.CallSpec{Kind: "RPC", Node: 0, Ctx: "cancel"})
+		go call.Issue()
+		if r, _ := scen.Await(call.DoneCh(), scen.B); r != scen.Done {
+			call.Cancel()
+			return vt.Verdict{OK: true, Inconclusive: true, Msg: "RPC did not return in time"}
+		}
+		if stp.Code == 0 {
+			mixed = true
+			if call.Err != nil {
+				return vt.Fail("C13/e2e/status-invented", "%s: the handler succeeded but the caller got %v", where, call.Err)
+			}
+			if rep, ok := call.Value.(*puppet.Rep); !ok || rep.GetToken() != tok {
+				return vt.Fail("C13/e2e/status-invented", "%s: the handler succeeded but the caller's value is not its reply: %v", where, call.Value)
+			}
+			continue
+		}
+		if call.Err == nil {
+			return vt.Fail("C13/e2e/status-lost", "%s: handler failed with code %d but the caller got no error", where, stp.Code)
+		}
+		st, ok := status.FromError(call.Err)
+		if !ok {
+			return vt.Fail("C13/e2e/status-lost", "%s: caller's error is not a status error: %v", where, call.Err)
+		}
+		if st.Code() != codes.Code(stp.Code) || st.Message() != stp.Text {
+			return vt.Fail("C13/e2e/status-changed", "%s: handler status (code %d, %q) reached the caller as (code %d, %q)", where, stp.Code, stp.Text, st.Code(), st.Message())
+		}
+		if len(st.Proto().GetDetails()) != 0 {
+			return vt.Fail("C13/e2e/status-changed", "%s: handler status without details reached the caller with %d details", where, len(st.Proto().GetDetails()))
+		}
 	}
-	if call.Err == nil {
-		return vt.Fail("C13/e2e/status-lost", "handler failed with code %d but the caller got no error", c.Code)
+	classes := []string{"mode=e2e-status", fmt.Sprintf("status-steps=%d", len(seq))}
+	if mixed {
+		classes = append(classes, "success-after-failure")
 	}
-	st, ok := status.FromError(call.Err)
-	if !ok {
-		return vt.Fail("C13/e2e/status-lost", "caller's error is not a status error: %v", call.Err)
-	}
-	if st.Code() != codes.Code(c.Code) || st.Message() != c.Text {
-		return vt.Fail("C13/e2e/status-changed", "handler status (code %d, %q) reached the caller as (code %d, %q)", c.Code, c.Text, st.Code(), st.Message())
-	}
-	return vt.Pass(true, "mode=e2e-status")
+	return vt.Pass(true, classes...)
 }
 
 func max(a, b int) int {
@@ -669,7 +715,7 @@ func max(a, b int) int {
 func TestProp(t *testing.T) {
 	vt.Main(t, vt.Spec[Case]{
 		ID:           "C13",
-		Rule:         "rapid-generated cases in four modes: (roundtrip) for every method registered in the test binary (puppet service with a message of every scalar kind, nested/repeated/map/oneof/enum/unknown fields, plus the repository's own test services) and both directions a reflectively generated payload and metadata (any message id, status with any code/text/Any details) must survive Marshal+Unmarshal with equal content and the right type; (decode) frames derived from valid ones by structure-aware mutation (truncation at boundaries, hostile/short/long length prefixes, swapped or spliced sections, method replaced by the name of every non-method registry entity / unknown / empty / long / non-UTF-8 names, byte flips) and plain noise must never panic; (e2e-frame) the same frames written raw to a live server's NodeStream must not panic its stream goroutine and a following probe must be answered; (e2e-status) a handler's status code and message must reach an RPC caller unchanged. Non-trivial = payload with a populated non-scalar field or status with details (roundtrip), a frame that differs from a valid one but is not noise (decode/e2e-frame), every e2e-status case",
+		Rule:         "rapid-generated cases in four modes: (roundtrip) for every method registered in the test binary (puppet service with a message of every scalar kind, nested/repeated/map/oneof/enum/unknown fields, plus the repository's own test services) and both directions a reflectively generated payload and metadata (any message id, status with any code/text/Any details) must survive Marshal+Unmarshal with equal content and the right type; (decode) frames derived from valid ones by structure-aware mutation (truncation at boundaries, hostile/short/long length prefixes, swapped or spliced sections, method replaced by the name of every non-method registry entity / unknown / empty / long / non-UTF-8 names, byte flips) and plain noise must never panic; (e2e-frame) the same frames written raw to a live server's NodeStream must not panic its stream goroutine and a following probe must be answered; (e2e-status) 1-6 consecutive RPCs to one node through one manager whose handlers fail with generated codes 1-16 and messages (empty, multi-line, non-ASCII, random) or succeed (after and between failures): every status code and message must reach its caller unchanged and without details, and a success must arrive as a success. Non-trivial = payload with a populated non-scalar field or status with details (roundtrip), a frame that differs from a valid one but is not noise (decode/e2e-frame), every e2e-status case",
 		Gen:          gen,
 		Run:          run,
 		TrackCurrent: false,
